@@ -579,15 +579,22 @@ Definition x_predicted (report : list bytes) (unpredicted : bool) (o : option se
 Definition x_cstate (s : cstate) : xval :=
   match s with Open [] => XN 0 | Open _ => XN 3 | Closed => XN 1 | Unmodelled => XN 2 end.
 
-(** with the default extensions a cross-origin request is answered by the CORS machinery (C13), and a
-    request that refuses codings may be answered 406 (C06); this model describes neither: such answers are
-    framed (oracle) but not predicted *)
-Definition unpredicted (cfg : c8cfg) (q : c8req) : bool :=
-  (cf_default_ext (c8_base cfg) && match header (B "origin") (q_req q) with Some _ => true | None => false end)
-  || match header (B "accept-encoding") (q_req q) with
-     | Some v => contains_sub (B "q=0") v          (* content negotiation may answer 406 (C06) *)
-     | None => false
-     end.
+(** with the default extensions a request that carries [Origin] is handled by the CORS machinery (C13), which
+    this model does not describe: its answer is framed (oracle) but not predicted, and neither are the later
+    answers of that history (the caches of model and server may differ from then on).  A request that refuses
+    codings may be answered 406 (C06): that answer alone is not predicted. *)
+Definition poisons (cfg : c8cfg) (q : c8req) : bool :=
+  cf_default_ext (c8_base cfg) && match header (B "origin") (q_req q) with Some _ => true | None => false end.
+Definition negotiates (q : c8req) : bool :=
+  match header (B "accept-encoding") (q_req q) with
+  | Some v => contains_sub (B "q=0") v
+  | None => false
+  end.
+Fixpoint unpredicted_flags (cfg : c8cfg) (sticky : bool) (reqs : list (c8req * bytes * nat)) : list bool :=
+  match reqs with
+  | [] => []
+  | (q, _, _) :: r => let p := sticky || poisons cfg q in (p || negotiates q) :: unpredicted_flags cfg p r
+  end.
 
 Definition run_conn_gen (drain head_rule : bool) (x : xval) : xval :=
   match x with
@@ -595,8 +602,8 @@ Definition run_conn_gen (drain head_rule : bool) (x : xval) : xval :=
       match d_c8cfg c, d_all d_c8req rs with
       | Some cfg, Some reqs =>
           let '(os, fin) := c8_run drain head_rule cfg reqs in
-          XL [XL (map (fun '(o, (q, _, _)) => x_predicted (cf_report (c8_base cfg)) (unpredicted cfg q) o)
-                      (combine os reqs));
+          XL [XL (map (fun '(o, u) => x_predicted (cf_report (c8_base cfg)) u o)
+                      (combine os (unpredicted_flags cfg false reqs)));
               x_cstate fin]
       | _, _ => bad_input
       end
